@@ -227,7 +227,7 @@ def gen_callbacks(rng, spec, opts, tn=None, kinds=SAFE_CALLBACKS):
             names = spec['endo'] + spec['exo']
             cb.update(what='eval', expr=rng.choice(['{a} * 2', '{a} + {a}', 'lag({a})', '{a}[0]']).replace('{a}', rng.choice(names)))
         elif what == 'bad_call':
-            cb.update(what='bad_call', how=rng.choice(['window', 'offset', 'position']))
+            cb.update(what='bad_call', how=rng.choice(['window', 'offset', 'position', 'margin', 'margin']), side=rng.choice(['lag', 'lead']), spelt=rng.choice(['positive', 'negative']))
         elif what == 'nested_solve':
             others = [p_ for p_ in range(lags, n - leads) if p_ != tn]
             if tn is None or not others:
@@ -726,6 +726,11 @@ def do_solve(m, span, spec, op, endo, check, exo, ctx, step):
                 ctx.check(tag_, 'callback/' + what_ + '-fails-inside-a-solve', ok_cb, {'result': res_})
             if what_ == 'copy':
                 ctx.check('C11', 'copy-taken-and-solved-inside-a-hook/fails', ok_cb, {'result': res_})
+        if what_ == 'bad_call' and spec['span']['type'] not in ('list_dup', 'list_dup_inner', 'np_dup'):
+            # a request that is refused between two solves is refused from inside one (bad window: ValueError; no such
+            # period, an offset out of the span, a period inside the lag / lead margin: IndexError)
+            for tag_ in ('C02', 'C04'):
+                ctx.check(tag_, 'callback/refused-request-served-inside-a-solve', res_ in ('ValueError', 'IndexError'), {'result': res_})
         if what_ == 'label_probe':
             # (C10: label access addresses the labelled periods - also from inside a hook, whatever is being solved)
             ctx.check('C10', 'label-access-from-inside-a-hook', not res_.startswith('MISMATCH'), {'result': res_, 't': t, 'span': spec['span']['type'], 'entry': op['op']})
